@@ -2,6 +2,7 @@ import FrappyDrive.Util
 import FrappyModel.Spec.C11
 import FrappyModel.Generated.C11
 import FrappyModel.Client.Shutdown
+import FrappyModel.Client.Reconnect
 /- line-protocol glue for C11 -/
 namespace Frappy.Drive.C11
 open Lean Frappy.Drive Frappy.Client.Match Frappy.Spec.C11
@@ -190,6 +191,57 @@ def connHandle (j : Json) : R Json := do
 
 end
 
+
+/-! ### life-cycle model (connect / reconnect / disconnect across connections) -/
+section
+open Frappy.Client.Reconnect
+
+def lifePcName (p : Pc) : String := ((reprStr p).splitOn ".").getLastD ""
+
+def lifeParseAct (j : Json) : R Frappy.Client.Reconnect.Act := do
+  match ← arr j with
+  | [.str "th", me, o] => return .th (← me.getNat?) (← o.getNat?)
+  | [.str "drop", c] => return .drop (← c.getNat?)
+  | [.str "newDisc"] => return .newDisc
+  | [.str "newReq"] => return .newReq
+  | [.str "put", q] => return .put (← q.getNat?)
+  | _ => throw s!"bad act {j.compress}"
+
+def lifeSummary (s : Frappy.Client.Reconnect.St) : Json :=
+  Json.mkObj [("pcs", jstrs (s.th.map (fun t => lifePcName t.pc))), ("io", jopt jnat s.io), ("running", Json.bool s.running),
+    ("shutdown", Json.bool s.shutdown), ("txAttr", jopt jnat s.txAttr), ("rxAttr", jopt jnat s.rxAttr),
+    ("connAttr", jopt jnat s.connAttr), ("registered", jnats s.registered), ("txq", jnat s.txq),
+    ("queues", jarr (s.queues.map (fun q => jarr (q.map Json.bool)))), ("alive", jnats (workersAlive s)),
+    ("standing", jarr (s.th.map (fun t => Json.bool (standing s t))))]
+
+/-- replay acts; each item is `{"a": act, "pc": expected point of the acting thread after the step (optional)}` -/
+def lifeReplay (cfg : Cfg) : Frappy.Client.Reconnect.St → List Json → Nat → R Json
+  | s, [], _ => return Json.mkObj [("refused_at", Json.null), ("mismatch_at", Json.null), ("final", lifeSummary s)]
+  | s, j :: rest, i => do
+    let act ← lifeParseAct (← fld j "a")
+    let kind := (j.getObjValAs? String "ev").toOption.getD "-"
+    let q := (j.getObjValAs? Nat "q").toOption
+    let w := (j.getObjValAs? Nat "w").toOption
+    match Frappy.Client.Reconnect.stepObs cfg s act kind q w with
+    | none =>
+      let at_ := match act with
+        | .th me _ => ((s.th[me]?).map (fun t => lifePcName t.pc)).getD "?"
+        | _ => "-"
+      return Json.mkObj [("refused_at", jnat i), ("mismatch_at", Json.null), ("final", lifeSummary s), ("at", Json.str at_)]
+    | some s' =>
+      let want := (j.getObjValAs? String "pc").toOption
+      let got := match act with
+        | .th me _ => (s'.th[me]?).map (fun t => lifePcName t.pc)
+        | _ => none
+      match want, got with
+      | some w, some g =>
+        if w == g then lifeReplay cfg s' rest (i + 1)
+        else return Json.mkObj [("refused_at", Json.null), ("mismatch_at", jnat i), ("final", lifeSummary s'),
+                                ("want", Json.str w), ("got", Json.str g)]
+      | _, _ => lifeReplay cfg s' rest (i + 1)
+
+end
+
 def releaseHandle (j : Json) : R Json := do
   let r : Release := { out := ← parseOutcome j, elapsedMs := ← fldNat j "elapsedMs" }
   let re : RunEnd := { threadErrors := ← fldStrs j "threadErrors", disconnectRaised := ← fldStrs j "disconnectRaised",
@@ -201,6 +253,9 @@ def handle (j : Json) : R Json := do
   let k ← fldStr j "k"
   if k == "shutdown_replay" then
     return ← shReplay {} (← fldArr j "acts") 0
+  if k == "life_replay" then
+    let cfg : Frappy.Client.Reconnect.Cfg := { activate := ← fldBool j "activate" }
+    return ← lifeReplay cfg {} (← fldArr j "acts") 0
   if k == "conn" then
     return ← connHandle j
   if k == "release" then
